@@ -4,9 +4,10 @@ import json
 LEVEL = "exploration"
 RULE = ("TLC enumerates symbolic credentials from specs/auth/GatesMC.tla: every valid JWT / signed request of the "
         "base sets, every single-field mutation of each (algorithm, secret, exp/nbf/iat class, transport/structure "
-        "shape incl. bit-flipped / truncated / swapped parts, claims; fingerprint, RSA key the secret is encrypted to, "
-        "secret attributes, timestamp class, method, path, query, body, signature form, and each component of the "
-        "signed tuple), two-field mutations and algorithm x key x shape / time-class products in the thorough tier, "
+        "shape incl. bit-flipped / truncated / swapped parts, claim set incl. every class of private claim names "
+        "relative to the registered ones: ordinary, case variants, affixed, odd, header vocabulary; fingerprint, RSA key "
+        "the secret is encrypted to, secret attributes, timestamp class, method, path, query, body, body length "
+        "announced or not (chunked), signature form, and each component of the signed tuple), two-field mutations and algorithm x key x shape / time-class products in the thorough tier, "
         "every request x response payload length in {0,1,15,16,17,4096} for the encryption round trip, and every "
         "request sequence of the parser machine (tokens under 4 secrets, expired, tampered, clock steps across the "
         "history reset) up to the tier's length. Each case is concretised with real crypto (seeded secrets, run-time "
@@ -101,6 +102,39 @@ def _cs_batch(run, cases, levels, label, unverified_levels=("handler",)):
         run.validate(FAM, TRACE[0], TRACE[1], tr, label=label + "-unverified-methods-" + lv)
 
 
+KF_CC = "KF_CsChunkedCipher"
+
+
+def _cc_batch(run, cfg, levels):
+    """The requests finding KF_CsChunkedCipher is about (properly signed encrypted body sent without an
+    announced length: Gates!ChunkedCipher; GatesMC leaves them out of every other case set).
+    status open  -> driven as one trace per level, so that the runner's known-finding classification
+                    costs a constant number of TLC runs (the trace is accepted only through the deviation
+                    action, which admits exactly the described behaviour for exactly these requests);
+    status fixed -> ordinary cases: RoundTrip is demanded of them like of any other request;
+    not listed   -> not driven (the finding is reported in the evidence notes as proposed)."""
+    status = None
+    for f in run.findings:      # an open entry names the deviation; a fixed entry mentions it in its text
+        if f.get("deviation") == KF_CC or KF_CC in f.get("what", ""):
+            status = f.get("status")
+    if status not in ("open", "fixed"):
+        run.extra.setdefault("not_driven", []).append(
+            "requests of the proposed finding %s (properly signed encrypted body of unannounced length reaches the "
+            "handler undecrypted) are enumerated by %s but not driven: the finding is not listed in "
+            "known_findings.json" % (KF_CC, cfg))
+        return
+    cases = _gen(run, cfg)
+    if status == "fixed":
+        _cs_batch(run, cases, levels, "cs-chunked-cipher")
+        return
+    for c in cases:
+        run.distinct.add(("cs", _key(c)))
+    for lv in levels:
+        tr = _drive(run, lv, "TestVerifGatesCs$", cases, env={"VERIF_C18_CHUNK": 1 << 30})
+        run.evaluations += len(cases)
+        run.validate(FAM, TRACE[0], TRACE[1], tr, label="cs-chunked-cipher-" + lv)
+
+
 def check(run):
     thorough = run.tier == "thorough"
     run.assumptions += [
@@ -120,6 +154,7 @@ def check(run):
     if not thorough:
         _jwt_batch(run, _gen(run, "GatesGenJwtMutQ.cfg"), _gen(run, "GatesGenSeq3.cfg"), both, "jwt")
         _cs_batch(run, _gen(run, "GatesGenCsMutQ.cfg") + _gen(run, "GatesGenCsRtQ.cfg"), both, "cs")
+        _cc_batch(run, "GatesGenCsCcQ.cfg", ("handler",))
         return
     run.model_check(FAM, "GatesMC", "GatesMCSeq5.cfg", workers=w,
                     note="parser history machine, sequences <= 5, all single-field mutations as tokens")
@@ -128,6 +163,7 @@ def check(run):
     _cs_batch(run, _gen(run, "GatesGenCsMutT.cfg"), both, "cs-mut1", unverified_levels=both)
     _cs_batch(run, _gen(run, "GatesGenCsRtT.cfg"), both, "cs-roundtrip")
     _cs_batch(run, _gen(run, "GatesGenCsMut2.cfg"), both, "cs-mut2")
+    _cc_batch(run, "GatesGenCsCcT.cfg", both)
 
 
 LEVEL_TEXT = ("Systematic exploration driven by a TLA+ specification: TLC enumerates symbolic (Dolev-Yao style) JWTs and "
@@ -136,8 +172,9 @@ LEVEL_TEXT = ("Systematic exploration driven by a TLA+ specification: TLC enumer
               "driver concretises each with real cryptography against the real middleware, and TLC validates every "
               "recorded outcome against Gates.tla. The parser's history machine is model-checked exhaustively.")
 LEVEL_NOTE = ("Exploration, not proof: the symbolic classes are exhaustively enumerated but each class is represented by "
-              "one (seeded random) concrete credential; cryptographic strength is assumed. Not covered: chunked "
-              "(unknown-length) request bodies, the non-strict mode and custom callbacks of the content-security "
+              "one (seeded random) concrete credential; cryptographic strength is assumed. Chunked (unknown-length) "
+              "bodies are built in process (ContentLength -1, TransferEncoding chunked), not sent over a socket. "
+              "Not covered: the non-strict mode and custom callbacks of the content-security "
               "handler, X-Request-Uri, concurrency inside TokenParser.")
 TECHNIQUE = "TLA+ spec (Gates/GatesMC), TLC case and sequence generation, real-crypto replay, TLC trace validation"
 DESIGN_REF = "DESIGN.md Part B C18"
